@@ -708,6 +708,9 @@ fn check_enc(c: &EncCase, obs: &mut Obs) -> CheckResult {
   if !b64 && !c.detached {
     obs.label(format!("enc:{form}:roundtrip-ok-unencoded-attached"));
   }
+  if c.detached && utf8.is_none() {
+    obs.label(format!("enc:{form}:roundtrip-ok-detached-binary-b64-{b64}"));
+  }
   Ok(())
 }
 
@@ -1499,6 +1502,9 @@ pub fn run(ctx: &mut Ctx) {
     ctx.require_class(&format!("enc:enc:{form}:roundtrip-ok"), 500);
     ctx.require_class(&format!("enc:enc:{form}:roundtrip-ok-unencoded-attached"), 50);
     ctx.require_class(&format!("enc:enc:{form}:unencoded:detached"), 100);
+    // a detached payload never enters the token: binary payloads have to get through under either b64 setting
+    ctx.require_class(&format!("enc:enc:{form}:roundtrip-ok-detached-binary-b64-true"), 20);
+    ctx.require_class(&format!("enc:enc:{form}:roundtrip-ok-detached-binary-b64-false"), 20);
   }
   for n in 2..=4 {
     ctx.require_class(&format!("enc:enc:general:recipients-{n}"), 100);
